@@ -25,6 +25,8 @@ def _is_const_like(n: ast.AST) -> bool:
         return True
     if isinstance(n, ast.Name) and n.id.isupper():
         return True
+    if isinstance(n, ast.Attribute) and n.attr.isupper() and isinstance(n.value, ast.Name):
+        return True          # a constant read through its module: constants.MANY_TO_ONE
     if isinstance(n, (ast.Tuple, ast.List)) and all(_is_const_like(e) for e in n.elts):
         return True
     return False
